@@ -409,6 +409,50 @@ def run(chk):
         if got != exp:
             chk.disagree(m["kind"], {"meta": m, "impl": exp[:50], "model": (got or [])[:50]})
 
+    # ---- a real TimeDependentSystem whose Hamiltonian commutes with itself at all times (H(t) = f(t)/2 sigma_x: the integrated
+    # propagators are exact) with an empty environment: every entry against the closed form at exactly the returned times; the
+    # SAME system and process tensor objects serve a sequence of calls with different start times (a scan of a pulse sequence)
+    from scipy.linalg import expm as _expm
+    sxx, syy, szz, smm = (oqupy.operators.sigma(k_) for k_ in "xyz-")
+    for it in range(3 if thorough else 1):
+        c1_, c2_ = rng.choice([1.0, 2.0]), rng.choice([2.0, 3.0])
+        f_ = lambda t: 1.0 + c1_ * t + c2_ * np.sin(t)
+        F_ = lambda t: t + c1_ * t * t / 2 - c2_ * np.cos(t)
+        U_ = lambda tb, ta: _expm(-0.5j * sxx * (F_(tb) - F_(ta)))
+        N_, dt_ = 6, 0.1
+        td_sys = oqupy.TimeDependentSystem(lambda t: 0.5 * f_(t) * sxx)
+        ept = oqupy.process_tensor.SimpleProcessTensor(hilbert_space_dimension=2, dt=dt_)
+        for k_ in range(N_):
+            ept.set_mpo_tensor(k_, np.identity(4).reshape(1, 1, 4, 4))
+        ept.compute_caps()
+        r0_ = np.array([[0.7, 0.2 - 0.1j], [0.2 + 0.1j, 0.3]])
+        oa_, ob_ = szz + 0.5 * smm, syy + 0.25j * szz
+        starts = [0.0, rng.choice([1.5, 0.8]), -0.7, 0.0]
+        worst_, where_ = 0.0, None
+        try:
+            for s0_ in starts:
+                tt_, cc_ = quiet(oqupy.compute_correlations, system=td_sys, process_tensor=ept, operator_a=oa_, operator_b=ob_, times_a=[4, 0, 2],
+                                 times_b=slice(None, None, -1), time_order="ordered", initial_state=r0_, start_time=s0_, progress_type="silent")
+                for i_, ta_ in enumerate(tt_[0]):
+                    for j_, tb_ in enumerate(tt_[1]):
+                        if tb_ < ta_ - 1e-12:
+                            continue
+                        u1_ = U_(ta_, s0_)
+                        u2_ = U_(tb_, ta_)
+                        ref_ = np.trace(ob_ @ u2_ @ (oa_ @ u1_ @ r0_ @ u1_.conj().T) @ u2_.conj().T)
+                        e_ = abs(cc_[i_, j_] - ref_)
+                        if not e_ <= worst_:
+                            worst_, where_ = e_, (s0_, float(ta_), float(tb_))
+        except Exception as ex:
+            chk.fail("correlations-raise", f"compute_correlations raises {ex!r} on a system object used for several start times", {"starts": starts})
+            continue
+        chk.search_cases += 1
+        chk.count("closed_form_start_time_scan")
+        chk.case({"kind": "start-time scan", "starts": starts}, ("scan", tuple(starts), c1_, c2_))
+        if not worst_ <= 1e-6:
+            chk.fail("value-at-returned-times", f"compute_correlations with one TimeDependentSystem object used for the start times {starts}: an entry deviates by "
+                     f"{worst_:.2e} from the exact correlation at the returned times (start_time, t_a, t_b) = {where_}", {"starts": starts, "where": where_})
+
     return chk.finish(
         level="proof",
         trusted=["models: Model/Corr.v, Lib/PySem.v (Python slice/list semantics), Model/Control.v, Model/PT.v, Model/SuperOps.v",
